@@ -191,6 +191,8 @@ fn main() {
                             write(tx2.repo_mut(), &mut commits, &mut last_cid, m);
                         }
                         tx1.commit("c18 a").block_on().unwrap();
+                        // operation heads are merged in the order of their end times (ms)
+                        std::thread::sleep(std::time::Duration::from_millis(3));
                         tx2.commit("c18 b").block_on().unwrap();
                         repo = repo.reload_at_head().block_on().unwrap();
                     } else {
